@@ -330,3 +330,39 @@ def stale_work_arrays(body: list, arrays: set, accumulator=None):
             problems.append((a, st))
             inited.add(a)
     return written, problems
+
+
+def symmetric_store_report(body, arrays=None):
+    """Stores `arr[a, b] = v` to 2-index arrays, block by block.
+
+    -> [(arr, (a, b), value text, stmt, mirrored)] where `mirrored` says that the
+    same block (the same statement list: one chained store or neighbouring
+    statements) also stores the same value text to arr[b, a].  Chained and
+    separate spellings are equivalent."""
+    from .cymodel import pp
+    out = []
+
+    def block(stmts):
+        here = []
+        for st in stmts:
+            if st.k == "assign":
+                for t in st.a[0]:
+                    if t.k == "index" and len(t.a[1]) == 2 and t.a[0].k == "name" and \
+                            (arrays is None or t.a[0].a[0] in arrays):
+                        here.append((t.a[0].a[0], (pp(t.a[1][0]), pp(t.a[1][1])),
+                                     pp(st.a[1]), st))
+            elif st.k == "for":
+                block(st.a[2])
+            elif st.k == "while":
+                block(st.a[1])
+            elif st.k == "if":
+                for c, b in st.a[0]:
+                    block(b)
+                block(st.a[1])
+        for (arr, idx, v, st) in here:
+            mirrored = idx[0] == idx[1] or any(
+                a2 == arr and i2 == (idx[1], idx[0]) and v2 == v
+                for (a2, i2, v2, s2) in here)
+            out.append((arr, idx, v, st, mirrored))
+    block(body)
+    return out
